@@ -120,10 +120,11 @@ Qed.
 Definition sd_trans (st : state) (l : label) (s s' : sd) : Prop :=
   swait s' = swait s /\
   match l with
-  | LSdSet _ => dpc s = DSet /\ dpc s' = (if swait s then DSnap else DAcquire)
-  | LSdAcquire _ => dpc s = DAcquire /\ dpc s' = DCancel (reg st)
+  | LSdSet _ => dpc s = DSet /\ dpc s' = DAcquire
+  | LSdAcquire _ => dpc s = DAcquire /\ dpc s' = (if swait s then DSnap else DCancel (reg st))
   | LSdCancel _ j => exists pend pend', dpc s = DCancel pend /\ remove1 j pend = Some pend' /\ dpc s' = DCancel pend'
-  | LSdSnap _ => dpc s = DSnap /\ dpc s' = DJoin (reg st)
+  | LSdSnap _ => dpc s = DSnap /\ dpc s' = DUnlock (reg st)
+  | LSdRelease _ => exists pend, dpc s = DUnlock pend /\ dpc s' = DJoin pend
   | LSdJoin _ => exists j rest, dpc s = DJoin (j :: rest) /\ finished st j = true /\ dpc s' = DJoin rest
   | LSdReturn _ => (dpc s = DCancel [] \/ dpc s = DJoin []) /\ dpc s' = DDone
   | _ => False
@@ -131,7 +132,8 @@ Definition sd_trans (st : state) (l : label) (s s' : sd) : Prop :=
 
 Definition sd_of (l : label) : option nat :=
   match l with
-  | LSdSet k | LSdAcquire k | LSdCancel k _ | LSdSnap k | LSdJoin k | LSdRaise k | LSdReturn k => Some k
+  | LSdSet k | LSdAcquire k | LSdCancel k _ | LSdSnap k | LSdRelease k | LSdJoin k | LSdRaise k
+  | LSdReturn k => Some k
   | _ => None
   end.
 
@@ -147,6 +149,7 @@ Proof.
   all: try (step_inv; simpl in *; auto; fail).
   all: step_inv; simpl in *; (split; [reflexivity|]); do 2 eexists; (split; [reflexivity|]); (split; [reflexivity|]); simpl; repeat (split || eexists); eauto.
   all: try (rewrite Heqb; reflexivity).
+  all: rewrite Heqb0; reflexivity.
 Qed.
 
 (* ------------------------------------------------------------------ per-job invariant *)
@@ -363,10 +366,11 @@ Proof. intros; apply sum_mono; intros; apply rank_sd_mono; auto. Qed.
 Lemma sd_trans_rank st l s s' : sd_trans st l s s' -> rank_sd (phi st) s' < rank_sd (phi st) s.
 Proof.
   unfold sd_trans, rank_sd, phi. intros (_ & Ht). destruct l; try contradiction.
-  - destruct Ht as (-> & ->). destruct (swait s); lia.
   - destruct Ht as (-> & ->). lia.
+  - destruct Ht as (-> & ->). destruct (swait s); simpl; lia.
   - destruct Ht as (pend & pend' & -> & Hr & ->). apply remove1_length in Hr. lia.
   - destruct Ht as (-> & ->). lia.
+  - destruct Ht as (pend & -> & ->). lia.
   - destruct Ht as (j & rest & -> & _ & ->). simpl. lia.
   - destruct Ht as ([-> | ->] & ->); simpl; lia.
 Qed.
@@ -430,11 +434,11 @@ Proof.
 Qed.
 
 Lemma rank_init tmos waits :
-  rank (init tmos waits) = 17 * length tmos + (5 + length tmos) * length waits.
+  rank (init tmos waits) = 17 * length tmos + (6 + length tmos) * length waits.
 Proof.
   unfold rank, phi, init; simpl.
   rewrite (sum_const rank_job 17), (sum_const pre_append 1), !map_length.
-  - rewrite (sum_const _ (5 + 1 * length tmos)), map_length; [lia|].
+  - rewrite (sum_const _ (6 + 1 * length tmos)), map_length; [lia|].
     intros x Hx. apply in_map_iff in Hx. destruct Hx as (w & <- & _). reflexivity.
   - intros x Hx. apply in_map_iff in Hx. destruct Hx as (w & <- & _). reflexivity.
   - intros x Hx. apply in_map_iff in Hx. destruct Hx as (w & <- & _). reflexivity.
@@ -442,22 +446,15 @@ Qed.
 
 Lemma schedules_bounded tmos waits sched st :
   run (init tmos waits) sched = Some st ->
-  length sched <= 17 * length tmos + (5 + length tmos) * length waits.
+  length sched <= 17 * length tmos + (6 + length tmos) * length waits.
 Proof. intros H. apply run_rank in H. rewrite rank_init in H. lia. Qed.
 
-(* ------------------------------------------------------------------ the refuted clauses: witnesses *)
+(* ------------------------------------------------------------------ the refuted clause (F6): witness *)
 
 (* F6: cancel() is a no-op while self.process is None *)
 Definition witness_process : list label :=
   [LSubCheck 0; LSubAcquire 0; LSubRecheck 0; LSubAppend 0; LSubStart 0; LSubRelease 0;
    LSdSet 0; LSdAcquire 0; LSdCancel 0 0; LSdReturn 0; LPopen 0 true].
-
-(* join snapshot taken without the lock (wait=True): the submitter has passed BOTH flag tests
-   (the second one holding the lock) before the request; shutdown(wait=True) snapshots an
-   empty registry and returns while the submitter still holds the lock *)
-Definition witness_join : list label :=
-  [LSubCheck 0; LSubAcquire 0; LSubRecheck 0; LSdSet 0; LSdSnap 0; LSdReturn 0;
-   LSubAppend 0; LSubStart 0; LSubRelease 0; LPopen 0 true].
 
 Definition running (st : state) (j : nat) : bool :=
   match nth_error (jobs st) j with
@@ -484,21 +481,17 @@ Proof.
            [], 0, 0. split; [reflexivity|]. simpl; auto 12.
 Qed.
 
-Lemma join_snapshot_witness :
-  exists st, run (init [false] [true]) witness_join = Some st /\
-             accepted_after_return witness_join /\ returned st 0 = true /\ running st 0 = true.
-Proof.
-  eexists. split; [vm_compute; reflexivity|]. split; [|split; reflexivity].
-  exists [LSubCheck 0; LSubAcquire 0; LSubRecheck 0; LSdSet 0; LSdSnap 0; LSdReturn 0; LSubAppend 0],
-         [LSubRelease 0; LPopen 0 true], 0, 0. split; [reflexivity|]. simpl; auto 10.
-Qed.
-
 (* ------------------------------------------------------------------ global invariant, deadlock-freedom *)
 
 Definition holding (p : spc_t) : bool :=
   match p with SRecheck | SAppend | SStart | SRelease | SUnlock => true | _ => false end.
 Definition post_append (p : spc_t) : bool :=
   match p with SStart | SRelease | SWait | SGot _ => true | _ => false end.
+(* shutdown caller holds the lock *)
+Definition sd_holding (d : dpc_t) : bool :=
+  match d with DCancel _ | DSnap | DUnlock _ => true | _ => false end.
+Definition pend_of (d : dpc_t) : list nat :=
+  match d with DCancel l | DUnlock l | DJoin l => l | _ => [] end.
 
 Definition registered (st : state) (j : nat) : Prop :=
   exists jb, nth_error (jobs st) j = Some jb /\ post_append (spc jb) = true.
@@ -507,18 +500,17 @@ Record ginv (st : state) : Prop := {
   g_jobs : Forall job_ok (jobs st);
   g_hold : forall i jb, nth_error (jobs st) i = Some jb -> holding (spc jb) = true -> lock st = Some (OSub i);
   g_sub  : forall i, lock st = Some (OSub i) -> exists jb, nth_error (jobs st) i = Some jb /\ holding (spc jb) = true;
-  g_canc : forall k s l, nth_error (sds st) k = Some s -> dpc s = DCancel l -> lock st = Some (OSd k);
-  g_sd   : forall k, lock st = Some (OSd k) -> exists s l, nth_error (sds st) k = Some s /\ dpc s = DCancel l;
+  g_canc : forall k s, nth_error (sds st) k = Some s -> sd_holding (dpc s) = true -> lock st = Some (OSd k);
+  g_sd   : forall k, lock st = Some (OSd k) -> exists s, nth_error (sds st) k = Some s /\ sd_holding (dpc s) = true;
   g_reg  : forall j, In j (reg st) -> registered st j;
-  g_pend : forall k s l, nth_error (sds st) k = Some s -> (dpc s = DCancel l \/ dpc s = DJoin l) ->
-                         forall j, In j l -> registered st j
+  g_pend : forall k s, nth_error (sds st) k = Some s -> forall j, In j (pend_of (dpc s)) -> registered st j
 }.
 
 Lemma step_lock st l st' :
   step st l = Some st' ->
   match l with
   | LSubAcquire j => lock st = None /\ lock st' = Some (OSub j)
-  | LSubRelease _ | LSubUnlock _ => lock st' = None
+  | LSubRelease _ | LSubUnlock _ | LSdRelease _ => lock st' = None
   | LSdAcquire k => lock st = None /\ lock st' = Some (OSd k)
   | LSdReturn k => exists s, nth_error (sds st) k = Some s /\
                      ((dpc s = DCancel [] /\ lock st' = None) \/ (dpc s = DJoin [] /\ lock st' = lock st))
@@ -548,14 +540,22 @@ Proof.
   all: destruct s; simpl in *; auto.
 Qed.
 
-Lemma registered_step st l st' j : step st l = Some st' -> registered st j -> registered st' j.
+Lemma sd_trans_hold st l s s' :
+  sd_trans st l s s' ->
+  sd_holding (dpc s') = (match l with LSdAcquire _ => true | LSdRelease _ | LSdReturn _ => false | _ => sd_holding (dpc s) end) /\
+  (match l with
+   | LSdAcquire _ => sd_holding (dpc s) = false
+   | LSdRelease _ => sd_holding (dpc s) = true
+   | _ => True end).
 Proof.
-  intros H (jb & Hn & Hp). apply step_jobs in H. unfold registered. destruct (job_of l).
-  - destruct H as (jb0 & jb' & Hn0 & Hj & Ht). rewrite Hj, (nth_set_nth _ _ _ _ _ Hn0).
-    destruct (Nat.eqb_spec j n); eauto.
-    subst. rewrite Hn in Hn0; inversion Hn0; subst. eexists; split; eauto.
-    apply (job_trans_spc _ _ _ _ Ht); auto.
-  - rewrite H; eauto.
+  unfold sd_trans. intros (_ & Ht). destruct l; try contradiction.
+  all: repeat match goal with
+              | H : _ /\ _ |- _ => destruct H
+              | H : exists _, _ |- _ => destruct H
+              | H : _ \/ _ |- _ => destruct H
+              end.
+  all: repeat match goal with H : dpc _ = _ |- _ => rewrite H; clear H end; simpl; auto.
+  destruct (swait s); auto.
 Qed.
 
 Lemma remove1_In j l l' x : remove1 j l = Some l' -> In x l' -> In x l.
@@ -567,17 +567,40 @@ Proof.
     destruct Hin as [Hx|Hin]; [left; auto | right; eapply IHl; eauto].
 Qed.
 
+Lemma sd_trans_pend st l s s' j :
+  sd_trans st l s s' -> In j (pend_of (dpc s')) -> In j (pend_of (dpc s)) \/ In j (reg st).
+Proof.
+  unfold sd_trans. intros (_ & Ht) Hin. destruct l; try contradiction.
+  all: repeat match goal with
+              | H : _ /\ _ |- _ => destruct H
+              | H : exists _, _ |- _ => destruct H
+              end.
+  all: repeat match goal with H : dpc _ = _ |- _ => rewrite H in *; clear H end; simpl in *; auto.
+  - destruct (swait s); simpl in *; auto.
+  - left. eapply remove1_In; eauto.
+  - destruct H as [H|H]; rewrite H; simpl; auto.
+Qed.
+
+Lemma registered_step st l st' j : step st l = Some st' -> registered st j -> registered st' j.
+Proof.
+  intros H (jb & Hn & Hp). apply step_jobs in H. unfold registered. destruct (job_of l).
+  - destruct H as (jb0 & jb' & Hn0 & Hj & Ht). rewrite Hj, (nth_set_nth _ _ _ _ _ Hn0).
+    destruct (Nat.eqb_spec j n); eauto.
+    subst. rewrite Hn in Hn0; inversion Hn0; subst. eexists; split; eauto.
+    apply (job_trans_spc _ _ _ _ Ht); auto.
+  - rewrite H; eauto.
+Qed.
+
 Lemma init_ginv tmos waits : ginv (init tmos waits).
 Proof.
   constructor; simpl.
   - apply init_jobs_ok.
   - intros i jb Hn Hh. apply nth_error_In, in_map_iff in Hn. destruct Hn as (x & <- & _). discriminate.
   - discriminate.
-  - intros k s l Hn Hd. apply nth_error_In, in_map_iff in Hn. destruct Hn as (x & <- & _). discriminate.
+  - intros k s Hn Hd. apply nth_error_In, in_map_iff in Hn. destruct Hn as (x & <- & _). discriminate.
   - discriminate.
   - contradiction.
-  - intros k s l Hn Hd. apply nth_error_In, in_map_iff in Hn. destruct Hn as (x & <- & _).
-    destruct Hd; discriminate.
+  - intros k s Hn j Hd. apply nth_error_In, in_map_iff in Hn. destruct Hn as (x & <- & _). destruct Hd.
 Qed.
 
 (* the sd entry k after the step, in terms of the one before *)
@@ -607,97 +630,111 @@ Proof.
   - rewrite H in Hn. left. split; auto. discriminate.
 Qed.
 
+(* forward versions: the entry after the step, given the entry before *)
+Lemma step_job_fwd st l st' i jb :
+  step st l = Some st' -> nth_error (jobs st) i = Some jb ->
+  (nth_error (jobs st') i = Some jb /\ job_of l <> Some i) \/
+  (job_of l = Some i /\ exists jb', nth_error (jobs st') i = Some jb' /\ job_trans (flag st) l jb jb').
+Proof.
+  intros H Hn. apply step_jobs in H. destruct (job_of l) as [i0|].
+  - destruct H as (jb0 & jb1 & Hs & Hss & Ht). rewrite Hss, (nth_set_nth _ _ _ _ _ Hs).
+    destruct (Nat.eqb_spec i i0).
+    + subst. rewrite Hn in Hs; inversion Hs; subst. right. split; auto. eauto.
+    + left. split; auto. congruence.
+  - rewrite H. left. split; auto. discriminate.
+Qed.
+
+Lemma step_sd_fwd st l st' k s :
+  step st l = Some st' -> nth_error (sds st) k = Some s ->
+  (nth_error (sds st') k = Some s /\ sd_of l <> Some k) \/
+  (sd_of l = Some k /\ exists s', nth_error (sds st') k = Some s' /\ sd_trans st l s s').
+Proof.
+  intros H Hn. apply step_globals in H. destruct H as (_ & H). destruct (sd_of l) as [k0|].
+  - destruct H as (s0 & s1 & Hs & Hss & Ht). rewrite Hss, (nth_set_nth _ _ _ _ _ Hs).
+    destruct (Nat.eqb_spec k k0).
+    + subst. rewrite Hn in Hs; inversion Hs; subst. right. split; auto. eauto.
+    + left. split; auto. congruence.
+  - rewrite H. left. split; auto. discriminate.
+Qed.
+
+(* who changes the lock: only its owner releases it *)
+Definition lock_step (st : state) (l : label) (st' : state) : Prop :=
+  match l with
+  | LSubAcquire j => lock st = None /\ lock st' = Some (OSub j)
+  | LSdAcquire k => lock st = None /\ lock st' = Some (OSd k)
+  | LSubRelease j | LSubUnlock j => lock st = Some (OSub j) /\ lock st' = None
+  | LSdRelease k => lock st = Some (OSd k) /\ lock st' = None
+  | LSdReturn k => (lock st = Some (OSd k) /\ lock st' = None) \/
+                   (lock st' = lock st /\ lock st <> Some (OSd k))
+  | _ => lock st' = lock st
+  end.
+
+Lemma step_lock_owner st l st' : ginv st -> step st l = Some st' -> lock_step st l st'.
+Proof.
+  intros G H. pose proof (step_lock _ _ _ H) as HL.
+  pose proof (step_jobs _ _ _ H) as HJ. pose proof (step_globals _ _ _ H) as (_ & HG).
+  destruct l; simpl in *; auto.
+  - (* unlock *) destruct HJ as (jb & jb' & Hn & _ & Hs & _). split; auto.
+    eapply g_hold; eauto. rewrite Hs; reflexivity.
+  - (* release *) destruct HJ as (jb & jb' & Hn & _ & Hs & _). split; auto.
+    eapply g_hold; eauto. rewrite Hs; reflexivity.
+  - (* sd release *) destruct HG as (s & s' & Hn & _ & _ & pl & Hd & _). split; auto.
+    eapply g_canc; eauto. rewrite Hd; reflexivity.
+  - (* return *) destruct HL as (s & Hn & [(Hd & Hl) | (Hd & Hl)]).
+    + left. split; auto. eapply g_canc; eauto. rewrite Hd; reflexivity.
+    + right. split; auto. intros Hk. destruct (g_sd _ G _ Hk) as (s0 & Hn0 & Hh).
+      rewrite Hn in Hn0; inversion Hn0; subst. rewrite Hd in Hh. discriminate.
+Qed.
+
 Lemma step_ginv st l st' : ginv st -> step st l = Some st' -> ginv st'.
 Proof.
   intros G H.
-  pose proof (step_lock _ _ _ H) as HL.
+  pose proof (step_lock_owner _ _ _ G H) as HL.
   pose proof (step_globals _ _ _ H) as (HR & _).
-  pose proof (step_jobs _ _ _ H) as HJ.
   constructor.
   - eapply step_ok; eauto. apply G.
   - (* g_hold *)
     intros i jb' Hn Hh. destruct (step_job_at _ _ _ _ _ H Hn) as [(Ho & Hne) | (Hje & jb & Ho & Ht)].
     + pose proof (g_hold _ G _ _ Ho Hh) as Hl.
-      destruct l; simpl in *; try congruence.
-      * destruct HL; congruence.
-      * (* unlock by another job j: it held the lock too *)
-        destruct HJ as (jb0 & jb1 & Hn0 & _ & Hs & _).
-        assert (Hh0 : holding (spc jb0) = true) by (rewrite Hs; reflexivity).
-        pose proof (g_hold _ G _ _ Hn0 Hh0). assert (i = j) by congruence. congruence.
-      * (* release by another job j: it held the lock too *)
-        destruct HJ as (jb0 & jb1 & Hn0 & _ & Hs & _).
-        assert (Hh0 : holding (spc jb0) = true) by (rewrite Hs; reflexivity).
-        pose proof (g_hold _ G _ _ Hn0 Hh0). assert (i = j) by congruence. congruence.
-      * destruct HL; congruence.
-      * destruct HL as (s & Hs & [(Hd & _) | (_ & Hl')]); [|congruence].
-        pose proof (g_canc _ G _ _ _ Hs Hd). congruence.
+      destruct l; simpl in HL, Hne; intuition congruence.
     + destruct (job_trans_spc _ _ _ _ Ht) as (_ & Hh' & Hx).
       destruct l; simpl in *; try discriminate; inversion Hje; subst;
-        try (rewrite Hh' in Hh; rewrite HL; eapply g_hold; eauto; fail).
-      * destruct HL; auto.
-      * rewrite Hh' in Hh. discriminate.
-      * rewrite Hh' in Hh. discriminate.
+        try (rewrite Hh' in Hh; try discriminate; rewrite HL; eapply g_hold; eauto; fail).
+      destruct HL; auto.
   - (* g_sub *)
     intros i Hl.
-    assert (Hcase : (lock st = Some (OSub i) /\ l <> LSubRelease i) \/ l = LSubAcquire i).
-    { destruct l; simpl in *; try (left; split; [congruence|discriminate]).
-      - destruct HL as (_ & HL). right. congruence.
-      - congruence.
-      - destruct HL; congruence.
-      - destruct HL as (s & _ & [(_ & Hx) | (_ & Hx)]); [congruence|]. left; split; [congruence|discriminate]. }
-    destruct Hcase as [(Hl0 & Hnr) | ->].
-    + destruct (g_sub _ G _ Hl0) as (jb & Hn & Hh).
-      pose proof (step_jobs _ _ _ H) as Hj. destruct (job_of l) as [i0|] eqn:Ej.
-      * destruct Hj as (jb0 & jb1 & Hn0 & Hjs & Ht). rewrite Hjs, (nth_set_nth _ _ _ _ _ Hn0).
-        destruct (Nat.eqb_spec i i0); eauto. subst i0. rewrite Hn in Hn0; inversion Hn0; subst jb0.
-        eexists; split; eauto. destruct (job_trans_spc _ _ _ _ Ht) as (_ & Hh' & _). rewrite Hh'.
-        destruct l; simpl in *; try discriminate; auto. all: inversion Ej; subst; congruence.
-      * rewrite Hj; eauto.
+    assert (Hcase : l = LSubAcquire i \/ (lock st = Some (OSub i) /\ lock st' = lock st)).
+    { destruct l; simpl in HL; try (right; intuition congruence; fail).
+      left. f_equal. intuition congruence. }
+    destruct Hcase as [-> | (Hl0 & Hsame)].
     + pose proof (step_jobs _ _ _ H) as Hj. simpl in Hj. destruct Hj as (jb0 & jb1 & Hn0 & Hjs & Hs & ->).
       rewrite Hjs, nth_set_nth_eq; [|apply nth_error_Some; congruence]. eexists; split; eauto.
+    + destruct (g_sub _ G _ Hl0) as (jb & Hn & Hh).
+      destruct (step_job_fwd _ _ _ _ _ H Hn) as [(Hn' & _) | (Hje & jb' & Hn' & Ht)]; eauto.
+      eexists; split; eauto. destruct (job_trans_spc _ _ _ _ Ht) as (_ & Hh' & _). rewrite Hh'.
+      destruct l; simpl in *; try discriminate; auto; inversion Hje; subst; intuition congruence.
   - (* g_canc *)
-    intros k s' pl Hn Hd. destruct (step_sd_at _ _ _ _ _ H Hn) as [(Ho & Hne) | (Hke & s & Ho & Ht)].
-    + pose proof (g_canc _ G _ _ _ Ho Hd) as Hl.
-      destruct l; simpl in *; try congruence.
-      * destruct HL; congruence.
-      * destruct HJ as (jb0 & jb1 & Hn0 & _ & Hs & _).
-        assert (Hh0 : holding (spc jb0) = true) by (rewrite Hs; reflexivity).
-        pose proof (g_hold _ G _ _ Hn0 Hh0). congruence.
-      * destruct HJ as (jb0 & jb1 & Hn0 & _ & Hs & _).
-        assert (Hh0 : holding (spc jb0) = true) by (rewrite Hs; reflexivity).
-        pose proof (g_hold _ G _ _ Hn0 Hh0). congruence.
-      * destruct HL; congruence.
-      * destruct HL as (s0 & Hs0 & [(Hd0 & _) | (_ & Hl')]); [|congruence].
-        pose proof (g_canc _ G _ _ _ Hs0 Hd0). assert (k = k0) by congruence. congruence.
-    + destruct Ht as (_ & Ht). destruct l; simpl in *; try discriminate; try contradiction; inversion Hke; subst.
-      * destruct Ht as (_ & Hd'). rewrite Hd in Hd'. destruct (swait s); discriminate.
-      * destruct HL; auto.
-      * destruct Ht as (p0 & p1 & Hd0 & _ & _). rewrite HL. eapply g_canc; eauto.
-      * destruct Ht as (_ & Hd'). congruence.
-      * destruct Ht as (? & ? & _ & _ & Hd'). congruence.
-      * destruct Ht as (_ & Hd'). congruence.
+    intros k s' Hn Hh. destruct (step_sd_at _ _ _ _ _ H Hn) as [(Ho & Hne) | (Hke & s & Ho & Ht)].
+    + pose proof (g_canc _ G _ _ Ho Hh) as Hl.
+      destruct l; simpl in HL, Hne; intuition congruence.
+    + destruct (sd_trans_hold _ _ _ _ Ht) as (Hh' & Hx).
+      destruct l; simpl in *; try discriminate; inversion Hke; subst;
+        try (rewrite Hh' in Hh; try discriminate; rewrite HL; eapply g_canc; eauto; fail).
+      destruct HL; auto.
   - (* g_sd *)
     intros k Hl.
-    assert (Hcase : (lock st = Some (OSd k) /\ l <> LSdReturn k) \/ l = LSdAcquire k).
-    { destruct l; simpl in *; try (left; split; [congruence|discriminate]).
-      - destruct HL; congruence.
-      - destruct HL as (_ & HL). right. congruence.
-      - destruct HL as (s & Hs & [(_ & Hx) | (Hd & Hx)]); [congruence|].
-        left. split; [congruence|]. intros He. inversion He; subst.
-        destruct (g_sd _ G k) as (s1 & l1 & Hs1 & Hd1); congruence. }
-    destruct Hcase as [(Hl0 & Hnr) | ->].
-    + destruct (g_sd _ G _ Hl0) as (s & pl & Hn & Hd).
-      pose proof (step_globals _ _ _ H) as (_ & Hs). destruct (sd_of l) as [k0|] eqn:Ek.
-      * destruct Hs as (s0 & s1 & Hn0 & Hss & Ht). rewrite Hss, (nth_set_nth _ _ _ _ _ Hn0).
-        destruct (Nat.eqb_spec k k0); eauto. subst k0. rewrite Hn in Hn0; inversion Hn0; subst s0.
-        destruct Ht as (_ & Ht). destruct l; simpl in *; try discriminate; try contradiction; inversion Ek; subst;
-          try (destruct Ht as (Hd0 & _); congruence);
-          try (destruct Ht as (? & ? & Hd0 & _); congruence).
-        -- destruct Ht as (p0 & p1 & _ & _ & Hd1). eauto.
-      * rewrite Hs; eauto.
+    assert (Hcase : l = LSdAcquire k \/ (lock st = Some (OSd k) /\ lock st' = lock st)).
+    { destruct l; simpl in HL; try (right; intuition congruence; fail).
+      left. f_equal. intuition congruence. }
+    destruct Hcase as [-> | (Hl0 & Hsame)].
     + pose proof (step_globals _ _ _ H) as (_ & Hs). simpl in Hs.
-      destruct Hs as (s0 & s1 & Hn0 & Hss & _ & _ & Hd1).
-      rewrite Hss, nth_set_nth_eq; [|apply nth_error_Some; congruence]. eauto.
+      destruct Hs as (s0 & s1 & Hn0 & Hss & Ht).
+      rewrite Hss, nth_set_nth_eq; [|apply nth_error_Some; congruence]. eexists; split; eauto.
+      apply (sd_trans_hold _ _ _ _ Ht).
+    + destruct (g_sd _ G _ Hl0) as (s & Hn & Hh).
+      destruct (step_sd_fwd _ _ _ _ _ H Hn) as [(Hn' & _) | (Hke & s' & Hn' & Ht)]; eauto.
+      eexists; split; eauto. destruct (sd_trans_hold _ _ _ _ Ht) as (Hh' & _). rewrite Hh'.
+      destruct l; simpl in *; try discriminate; auto; inversion Hke; subst; intuition congruence.
   - (* g_reg *)
     intros j Hin. rewrite HR in Hin.
     assert (Hold : In j (reg st) \/ l = LSubAppend j).
@@ -708,21 +745,10 @@ Proof.
       exists (set_spc jb0 SStart). split; [|reflexivity].
       rewrite Hjs, nth_set_nth_eq; auto. apply nth_error_Some; congruence.
   - (* g_pend *)
-    intros k s' pl Hn Hd j Hin.
+    intros k s' Hn j Hin. eapply registered_step; eauto.
     destruct (step_sd_at _ _ _ _ _ H Hn) as [(Ho & Hne) | (Hke & s & Ho & Ht)].
-    + eapply registered_step; eauto. eapply g_pend; eauto.
-    + eapply registered_step; eauto. destruct Ht as (_ & Ht).
-      destruct l; simpl in *; try discriminate; try contradiction; inversion Hke; subst.
-      * destruct Ht as (_ & Hd'). rewrite Hd' in Hd. destruct (swait s); destruct Hd; discriminate.
-      * destruct Ht as (_ & Hd'). rewrite Hd' in Hd. destruct Hd as [Hd|Hd]; inversion Hd; subst.
-        eapply g_reg; eauto.
-      * destruct Ht as (p0 & p1 & Hd0 & Hr & Hd'). rewrite Hd' in Hd. destruct Hd as [Hd|Hd]; inversion Hd; subst.
-        eapply g_pend; eauto. eapply remove1_In; eauto.
-      * destruct Ht as (_ & Hd'). rewrite Hd' in Hd. destruct Hd as [Hd|Hd]; inversion Hd; subst.
-        eapply g_reg; eauto.
-      * destruct Ht as (j0 & rest & Hd0 & _ & Hd'). rewrite Hd' in Hd. destruct Hd as [Hd|Hd]; inversion Hd; subst.
-        eapply g_pend; eauto. simpl; auto.
-      * destruct Ht as (_ & Hd'). rewrite Hd' in Hd. destruct Hd; discriminate.
+    + eapply g_pend; eauto.
+    + destruct (sd_trans_pend _ _ _ _ _ Ht Hin); [eapply g_pend | eapply g_reg]; eauto.
 Qed.
 
 Lemma run_ginv sched : forall st st', ginv st -> run st sched = Some st' -> ginv st'.
@@ -757,10 +783,14 @@ Proof.
       fire (LSubStart i). rewrite Hn, Es, Hw. eauto.
     + fire (LSubRelease i). rewrite Hn, Es. eauto.
     + fire (LSubUnlock i). rewrite Hn, Es. eauto.
-  - destruct (g_sd _ G _ El) as (s & pl & Hn & Hd). destruct pl as [|j r].
-    + fire (LSdReturn k). rewrite Hn, Hd. eauto.
-    + destruct (g_pend _ G _ _ _ Hn (or_introl Hd) j (or_introl eq_refl)) as (jb & Hj & _).
-      fire (LSdCancel k j). rewrite Hn, Hd. simpl. rewrite Nat.eqb_refl, Hj. eauto.
+  - destruct (g_sd _ G _ El) as (s & Hn & Hd). destruct (dpc s) as [| |pl| |pl|pl|] eqn:Ed; try discriminate.
+    + destruct pl as [|j r].
+      * fire (LSdReturn k). rewrite Hn, Ed. eauto.
+      * assert (Hin : In j (pend_of (dpc s))) by (rewrite Ed; simpl; auto).
+        destruct (g_pend _ G _ _ Hn j Hin) as (jb & Hj & _).
+        fire (LSdCancel k j). rewrite Hn, Ed. simpl. rewrite Nat.eqb_refl, Hj. eauto.
+    + fire (LSdSnap k). rewrite Hn, Ed. eauto.
+    + fire (LSdRelease k). rewrite Hn, Ed. eauto.
 Qed.
 
 Lemma worker_moves st j jb :
@@ -808,11 +838,13 @@ Proof.
   - destruct (lock st) eqn:El.
     + apply holder_moves; auto. congruence.
     + fire (LSdAcquire k). rewrite El. simpl. rewrite Hn, Ed. eauto.
-  - apply holder_moves; auto. rewrite (g_canc _ G _ _ _ Hn Ed). discriminate.
-  - fire (LSdSnap k). rewrite Hn, Ed. eauto.
+  - apply holder_moves; auto. rewrite (g_canc _ G _ _ Hn); [discriminate | rewrite Ed; reflexivity].
+  - apply holder_moves; auto. rewrite (g_canc _ G _ _ Hn); [discriminate | rewrite Ed; reflexivity].
+  - apply holder_moves; auto. rewrite (g_canc _ G _ _ Hn); [discriminate | rewrite Ed; reflexivity].
   - destruct pending as [|j r].
     + fire (LSdReturn k). rewrite Hn, Ed. eauto.
-    + destruct (g_pend _ G _ _ _ Hn (or_intror Ed) j (or_introl eq_refl)) as (jb & Hj & Hp).
+    + assert (Hin : In j (pend_of (dpc s))) by (rewrite Ed; simpl; auto).
+      destruct (g_pend _ G _ _ Hn j Hin) as (jb & Hj & Hp).
       pose proof (Forall_nth _ _ _ _ (g_jobs _ G) Hj) as Hok.
       destruct (spc jb) eqn:Es; try discriminate;
         try (eapply job_moves; eauto; unfold job_final; rewrite Es; auto; fail).
@@ -981,11 +1013,3 @@ Proof.
   exists [false], [false], witness_process, st, 0, 0. auto.
 Qed.
 
-Lemma join_misses_accepted_job_refuted :
-  exists sched st,
-    run (init [false] [true]) sched = Some st /\ accepted_after_return sched /\
-    returned st 0 = true /\ running st 0 = true.
-Proof.
-  destruct join_snapshot_witness as (st & Hr & Ha & Hk & Hj).
-  exists witness_join, st. auto.
-Qed.
